@@ -122,7 +122,7 @@ fs = []
 for k in range(3):
     def f(x, k=k, *, w={d}):
         if x > k:
-            return x - k + w
+            return x - k + w + probe()
         return G + k + {c}
     fs.append(f)
 ''',
@@ -156,7 +156,7 @@ class K(object):
         self.a = a
     def m(self, x):
         if x > self.a:
-            return x - self.a + {c}
+            return x - self.a + {c} + probe()
         return self.a + G
 ''',
     'lambda': '''
@@ -180,15 +180,38 @@ def mkb(k):
 }
 
 
+_CHAINS = {}
+_CHAIN_LOCK = threading.Lock()
+
+
 def _probe():
-    """1000 if the nearest enclosing `helper` frame is a converted one (makes `recursive` observable)."""
+    """What a running pool function can observe of HOW it was converted: for every pool frame up the
+    stack whether it is the converted version (`ag__*`) and, if so, the options embedded in its
+    FunctionScope; plus the conversion status (`ag_ctx.control_status_ctx()`) in force.  Returned as
+    an int (an index of the observation) so that it flows into the function's result."""
+    from malt.core import ag_ctx
+    from malt.operators import function_wrappers
+    chain = []
     f = sys._getframe(1)
     while f is not None:
-        n = f.f_code.co_name
-        if n == 'helper' or n == 'ag__helper':
-            return 1000 if n.startswith('ag__') else 0
+        if str(f.f_globals.get('__name__', '')).startswith('c10pool_'):
+            n = f.f_code.co_name
+            opts = None
+            if n.startswith('ag__'):
+                for v in list(f.f_locals.values()):
+                    if isinstance(v, function_wrappers.FunctionScope):
+                        opts = opt_tuple(v.options)
+            chain.append((n, opts))
         f = f.f_back
-    return 0
+    ctx = ag_ctx.control_status_ctx()
+    key = (tuple(chain), ctx.status.name)
+    with _CHAIN_LOCK:
+        idx = _CHAINS.setdefault(key, len(_CHAINS) + 1)
+    return 1000 * idx
+
+
+def probe_key(result_repr):
+    return result_repr
 
 
 _PROBE = []
@@ -196,7 +219,8 @@ _PROBE = []
 
 def probe_fn():
     if not _PROBE:
-        _PROBE.append(_malt()[0].experimental.do_not_convert(_probe))
+        # an autograph artifact is called as-is, without entering a DISABLED conversion context
+        _PROBE.append(_malt()[1].autograph_artifact(_probe))
     return _PROBE[0]
 
 
@@ -257,6 +281,8 @@ class Group(object):
             g2 = dict(ns); g2['G'] = ns['G'] + 1000
             f4 = types.FunctionType(f2.__code__, g2, 'f', f2.__defaults__, f2.__closure__)
             out.append(Fn(f4, [(4,), (6, 2)], 'closure k=7, other globals'))
+            # the callee of all of the above, also requested directly
+            out.append(Fn(ns['helper'], [(5,), (1,)], 'helper (also reached as a callee)'))
         elif kind == 'loop':
             for j, f in enumerate(ns['fs']):
                 out.append(Fn(f, [(0,), (5,)], 'loop k=%d' % j))
@@ -908,6 +934,26 @@ def call_args(entry, a):
     return ((entry.bound,) + tuple(a)) if entry.bound is not None else tuple(a)
 
 
+_FEATS_RE = None
+
+
+def gen_source(g):
+    """Normalised generated source of a converted function (None if unavailable)."""
+    global _FEATS_RE
+    import re
+    if _FEATS_RE is None:
+        _FEATS_RE = re.compile(r'optional_features=\(([^()]*)\)')
+    try:
+        src = inspect.getsource(g)
+    except Exception:       # noqa
+        return None
+
+    def norm(m):
+        items = sorted(x.strip() for x in m.group(1).split(',') if x.strip())
+        return 'optional_features=(%s)' % ', '.join(items)
+    return _FEATS_RE.sub(norm, src)
+
+
 def do_request(world, entry, opt, route, verdicts, where):
     """One request through a public route + the direct oracle.  Appends a verdict dict on failure."""
     malt, api, converter, _, _, _ = _malt()
@@ -940,6 +986,11 @@ def do_request(world, entry, opt, route, verdicts, where):
                 if got != exp:
                     verdicts.append(dict(info, what='behaviour differs from cache-less reference conversion',
                                          args=list(a), got=repr(got), expected=repr(exp)))
+            sg, sr = gen_source(g), gen_source(ref)
+            if sg is not None and sr is not None and sg != sr:
+                import difflib
+                d = [l for l in difflib.unified_diff(sr.split('\n'), sg.split('\n'), 'reference', 'served', lineterm='', n=0)][:12]
+                verdicts.append(dict(info, what='generated code differs from cache-less reference conversion', diff=d))
         else:
             a = entry.args[world.pick(len(entry.args))]
             if route == 'converted_call':
